@@ -70,7 +70,7 @@ def replay_scripts(ctx):
 
 def replay_args(ctx):
     res = tlc.run('MC_CrossArgs', workers=1, timeout=300)
-    ctx.add_tlc(res, 'argument-check table (32 combinations)')
+    ctx.add_tlc(res, 'argument-check table (64 combinations: validation indices and values separately)')
     n = [3, 3, 3]
     T = teneva.rand(n, 2, seed=5)
     F = R.dense(T)
@@ -80,17 +80,24 @@ def replay_args(ctx):
         a = row['args']
         calls = [0]
 
+        class _NoStop(Exception):
+            pass
+
         def f(I):
             calls[0] += 1
+            if calls[0] > 400:          # far beyond what any accepted combination needs: the run has no effective stop criterion
+                raise _NoStop()
             return F[tuple(np.asarray(I).T)]
         kw = dict(m=200 if a['hasM'] else None, e=1e-6 if a['hasEps'] else None,
                   nswp=2 if a['hasN'] else None, e_vld=1e-6 if a['hasEv'] else None,
-                  I_vld=I_v if a['hasData'] else None, y_vld=y_v if a['hasData'] else None)
+                  I_vld=I_v if a['hasI'] else None, y_vld=y_v if a['hasY'] else None)
         raised = None
         try:
             teneva.cross(f, teneva.rand(n, 2, seed=6), info={}, **kw)
         except ValueError:
             raised = 'ValueError'
+        except _NoStop:
+            raised = 'accepted, and then never stopped (aborted after 400 objective calls)'
         except Exception as ex:   # any other exception type is not the documented rejection
             raised = type(ex).__name__
         ctx.case(key=('args', sorted(a.items())), nontrivial=True)
